@@ -73,6 +73,8 @@ def fault_runs(ctx, nseeds, nsteps, per_pair, hang_s, exhaustive_cap=0, nkeys=16
         args = [exe, "-mode", "c08", "-seed", str(seed), "-n", str(nsteps), "-nkeys", str(nkeys), "-out", out,
                 "-fault", f, "-hang", str(hang_s)]
         s = run_driver(args, timeout=900)
+        s["fault"] = f
+        s["seed"] = seed
         s["path"] = out
         s["cmd"] = " ".join(args)
         return s
